@@ -242,7 +242,7 @@ fn c01_legals_queen_check() {
     producer_check::<QueenType, InCheckType>(sp::QUEEN);
 }
 
-// @ob id=O1.5p0 props=C01 tier=quick kind=bounded weight=light bound="at most 2 pawns of the mover" fn="PawnType::legals::<NotInCheckType>" desc="real PawnType::legals, not in check: pushes/captures of unpinned pawns, pinned pawns along the king line, promotion flag exactly on the seventh rank, one extra entry per legal en-passant capture (definitional legality), none when no en-passant state"
+// @ob id=O1.5p0 props=C01,C05,C17 tier=quick kind=bounded weight=light bound="at most 2 pawns of the mover" fn="PawnType::legals::<NotInCheckType>" desc="real PawnType::legals, not in check: pushes/captures of unpinned pawns, pinned pawns along the king line, promotion flag exactly on the seventh rank, one extra entry per legal en-passant capture (definitional legality), none when no en-passant state"
 #[kani::proof]
 #[kani::unwind(9)]
 #[kani::stub(crate::magic::between, crate::vstubs::between_cf)]
@@ -258,7 +258,7 @@ fn c01_legals_pawn_nocheck() {
     producer_check_n::<PawnType, NotInCheckType>(sp::PAWN, 2);
 }
 
-// @ob id=O1.5p1 props=C01 tier=quick kind=bounded weight=light bound="at most 2 pawns of the mover" fn="PawnType::legals::<InCheckType>" desc="real PawnType::legals in single check, including the en-passant capture of a checking pawn"
+// @ob id=O1.5p1 props=C01,C05 tier=quick kind=bounded weight=light bound="at most 2 pawns of the mover" fn="PawnType::legals::<InCheckType>" desc="real PawnType::legals in single check, including the en-passant capture of a checking pawn"
 #[kani::proof]
 #[kani::unwind(9)]
 #[kani::stub(crate::magic::between, crate::vstubs::between_cf)]
